@@ -6,10 +6,10 @@ Import ListNotations.
 Open Scope Z_scope.
 
 (* what each layer's own theorem provides, for requests inside [0, size) *)
-Definition layer_ok (size : Z) (l : layer) : Prop :=
-  forall off n, 0 <= off -> 0 <= n -> off + n <= size ->
+Definition layer_ok (size g : Z) (l : layer) : Prop :=
+  forall off n, 0 <= off -> 0 <= n -> off + n <= size -> off mod g = 0 -> n mod g = 0 ->
     exists p, l_read l off n = Ok p /\ srcs_of p = map (l_src l) (zseq off n) /\
-      (forall o m, In (SParent o m) p -> 0 <= o /\ 0 <= m /\ o + m <= size).
+      (forall o m, In (SParent o m) p -> 0 <= o /\ 0 <= m /\ o + m <= size /\ o mod g = 0 /\ m mod g = 0).
 
 (* parent references point at the same guest offset *)
 Definition parent_same (l : layer) : Prop := forall o o', l_src l o = Parent o' -> o' = o.
@@ -34,18 +34,18 @@ Proof.
   exfalso. eapply Hnp. reflexivity.
 Qed.
 
-Theorem chain_read_correct size : forall ls depth off n,
-  Forall (layer_ok size) ls ->
-  0 <= off -> 0 <= n -> off + n <= size ->
+Theorem chain_read_correct size g : forall ls depth off n,
+  Forall (layer_ok size g) ls ->
+  0 <= off -> 0 <= n -> off + n <= size -> off mod g = 0 -> n mod g = 0 ->
   chain_read ls depth off n = Ok (map (chain_src ls depth) (zseq off n)).
 Proof.
-  induction ls as [|l rest IH]; intros depth off n Hall Hoff Hn Hfit.
+  induction ls as [|l rest IH]; intros depth off n Hall Hoff Hn Hfit Hog Hng.
   - reflexivity.
   - inversion Hall as [|? ? Hl Hrest]; subst.
-    destruct (Hl off n Hoff Hn Hfit) as (p & Hp & Hsrcs & Hpar).
+    destruct (Hl off n Hoff Hn Hfit Hog Hng) as (p & Hp & Hsrcs & Hpar).
     cbn [chain_read]. rewrite Hp. cbn [bind].
     (* the inner loop converts the plan segment by segment *)
-    assert (Hgo : forall segs, (forall o m, In (SParent o m) segs -> 0 <= o /\ 0 <= m /\ o + m <= size) ->
+    assert (Hgo : forall segs, (forall o m, In (SParent o m) segs -> 0 <= o /\ 0 <= m /\ o + m <= size /\ o mod g = 0 /\ m mod g = 0) ->
       (fix go (segs : list seg) : res (list lsrc) :=
          match segs with
          | [] => Ok []
@@ -61,8 +61,8 @@ Proof.
       rewrite srcs_of_cons, map_app.
       destruct s as [z|o z|o z|o m|d k z];
         try (rewrite (lsrcs_conv rest depth) by (intros; discriminate); reflexivity).
-      destruct (Hin o m ltac:(now left)) as (Ho & Hm & Hf).
-      rewrite (IH (S depth) o m Hrest Ho Hm Hf). cbn [bind srcs_of_seg]. rewrite map_map. reflexivity. }
+      destruct (Hin o m ltac:(now left)) as (Ho & Hm & Hf & Hg1 & Hg2).
+      rewrite (IH (S depth) o m Hrest Ho Hm Hf Hg1 Hg2). cbn [bind srcs_of_seg]. rewrite map_map. reflexivity. }
     rewrite (Hgo p Hpar), Hsrcs, map_map. reflexivity.
 Qed.
 
